@@ -187,7 +187,11 @@ static Json gen_c13(uint64_t seed, long i, std::vector<Format*> const& fmts)
         else if (pk < 42) o.set("p", "dev");
         else if (pk < 48) o.set("p", "info");
         else if (pk < 58) o.set("p", "view");
-        else if (pk < 66) { o.set("p", "small"); o.set("dw", (int)r.below(4)); o.set("dh", (int)r.below(4)); }
+        else if (pk < 66)
+        {
+            o.set("p", "small"); o.set("dw", (int)r.below(4)); o.set("dh", (int)r.below(4));
+            if (r.chance(1, 2)) { o.set("region", 1); o.set("x", (int)r.below(20)); o.set("y", (int)r.below(20)); o.set("w", (int)r.below(20)); o.set("h", (int)r.below(20)); }
+        }
         else if (pk < 76 && f->has_scanline) o.set("p", "scan");
         else if (pk < 84 && f->has_any) o.set("p", "any");
         else { o.set("p", r.chance(2, 3) ? "rci" : "rcv"); o.set("type", r.pick(f->convert_types)); }
